@@ -8,8 +8,8 @@ from common import (NCPU, REPLAYS, HarnessError, cargo_build, known_findings, lo
 PROP = "C03"
 
 BUDGET = {
-    "quick": {"l1": 2_000_000, "l2": 1_000_000, "l1_miri": 192, "l2_miri": 96, "miri_procs": 16, "cpp": 2000},
-    "thorough": {"l1": 200_000_000, "l2": 100_000_000, "l1_miri": 2000, "l2_miri": 1000, "miri_procs": 16, "cpp": 200_000},
+    "quick": {"l1": 2_000_000, "l2": 1_000_000, "l1_miri": 192, "l2_miri": 96, "miri_procs": 16, "cpp": 40000},
+    "thorough": {"l1": 200_000_000, "l2": 100_000_000, "l1_miri": 2000, "l2_miri": 1000, "miri_procs": 16, "cpp": 4_000_000},
 }
 
 
@@ -19,6 +19,7 @@ def check(tier, seed):
     bindir = cargo_build(["own-sim"])
     binary = os.path.join(bindir, "own-sim")
     phases, violations, counters, samples = [], [], {}, []
+    cpp_known = []
     totals = {"evaluations": 0, "distinct_nontrivial": 0}
 
     def absorb(name, stats, wall):
@@ -63,13 +64,14 @@ def check(tier, seed):
             t1 = time.time()
             cpp_cov, viols = c03_cpp.run(tier, seed, b["cpp"])
             violations += viols
+            cpp_known = cpp_cov.pop("known_lines", [])
             totals["evaluations"] += cpp_cov.get("runs", 0)
             totals["distinct_nontrivial"] += cpp_cov.get("distinct_nontrivial", 0)
             log("[C03] L2-C++ (ASan): %d traces, %d violations (%.1fs)" % (cpp_cov.get("runs", 0), len(viols), time.time() - t1))
 
     # ---- known findings / fixed entries
     findings, fixed = known_findings()
-    reported, known_lines = [], []
+    reported, known_lines = [], list(cpp_known)
     for v in violations:
         hit = None
         for f in findings:
